@@ -400,7 +400,12 @@ func registerIntercepts(e *Engine) {
 	}
 	lock := func(v int64) Intercept {
 		return func(c *CallCtx, st *State, args []Value) []Outcome {
-			st.heap[mutexCell(c, st, args[0])] = smt.IntC(v)
+			cell := mutexCell(c, st, args[0])
+			if v == 1 && st.heap[cell].(*smt.Term).SInt() == 1 {
+				// Lock of a mutex the (single) code under test already holds and never released: it blocks for ever
+				return []Outcome{{St: st, Panic: &PanicInfo{Kind: "deadlock", Msg: "sync.Mutex.Lock on a mutex that is still held by the same code (never unlocked on an earlier path)"}}}
+			}
+			st.heap[cell] = smt.IntC(v)
 			return one(st, nil)
 		}
 	}
@@ -503,6 +508,12 @@ func registerIntercepts(e *Engine) {
 	e.reg("math.Floor", un(func(x *smt.Term) *smt.Term { return smt.FPRound(smt.RTN, x) }))
 	e.reg("math.Trunc", un(func(x *smt.Term) *smt.Term { return smt.FPRound(smt.RTZ, x) }))
 	e.reg("math.Abs", un(func(x *smt.Term) *smt.Term { return smt.FPUn(smt.OpFPAbs, x) }))
+	// math.Copysign(x, y): |x| with the sign of y (for a NaN y the sign bit is not modelled: positive)
+	e.reg("math.Copysign", func(c *CallCtx, st *State, args []Value) []Outcome {
+		x, y := args[0].(*smt.Term), args[1].(*smt.Term)
+		ax := smt.FPUn(smt.OpFPAbs, x)
+		return one(st, smt.Ite(smt.FPPred(smt.OpFPIsNeg, y), smt.FPUn(smt.OpFPNeg, ax), ax))
+	})
 	e.reg("math.IsNaN", un(func(x *smt.Term) *smt.Term { return smt.FPPred(smt.OpFPIsNaN, x) }))
 	e.reg("math.NaN", func(c *CallCtx, st *State, args []Value) []Outcome { return one(st, smt.FPC(math.NaN())) })
 	e.reg("math.Inf", func(c *CallCtx, st *State, args []Value) []Outcome {
@@ -587,6 +598,49 @@ func registerIntercepts(e *Engine) {
 	str2bool("strings.Contains", strings.Contains)
 	str2bool("strings.HasSuffix", strings.HasSuffix)
 	str2bool("strings.EqualFold", strings.EqualFold)
+	// EqualFold with a symbolic identifier: decided over the identifier family (code 0 = "")
+	e.reg("strings.EqualFold", func(c *CallCtx, st *State, args []Value) []Outcome {
+		a, b := args[0].(Str), args[1].(Str)
+		sa, oka := strArg(a)
+		sb, okb := strArg(b)
+		if oka && okb {
+			return one(st, smt.BoolC(strings.EqualFold(sa, sb)))
+		}
+		const maxID = 8
+		name := func(i int) string {
+			if i == 0 {
+				return ""
+			}
+			return IdName(i)
+		}
+		is := func(x Str, okx bool, sx string, i int) *smt.Term {
+			if okx {
+				return smt.BoolC(sx == name(i))
+			}
+			return smt.Eq(x.Code, smt.IntC(int64(i)))
+		}
+		res := smt.False
+		for i := 0; i <= maxID; i++ {
+			for j := 0; j <= maxID; j++ {
+				if strings.EqualFold(name(i), name(j)) {
+					res = smt.Or(res, smt.And(is(a, oka, sa, i), is(b, okb, sb, j)))
+				}
+			}
+		}
+		// a concrete operand outside the family can only match itself case-insensitively
+		if oka != okb {
+			conc, sym := sa, b
+			if okb {
+				conc, sym = sb, a
+			}
+			for i := 0; i <= maxID; i++ {
+				if name(i) != conc && strings.EqualFold(name(i), conc) {
+					res = smt.Or(res, smt.Eq(sym.Code, smt.IntC(int64(i))))
+				}
+			}
+		}
+		return one(st, res)
+	})
 	str2int := func(name string, f func(a, b string) int) {
 		e.reg(name, func(c *CallCtx, st *State, args []Value) []Outcome {
 			a, ok1 := strArg(args[0])
